@@ -99,6 +99,11 @@ def _flows(fn, T, cls):
             if isinstance(inner, ast.Name) and inner.id in origin:
                 src = inner.id
                 kinds = (k,) if k else ()
+                t0 = env.get(origin[src][0])
+                if k == 'deep' and t0 is not None and t0[0] == 'list':
+                    # one deepcopy of the whole container: entries that
+                    # are the same object stay the same object
+                    kinds = ('deepall',)
             elif isinstance(v, ast.List) and len(v.elts) == 1 and isinstance(
                     v.elts[0], ast.Name) and v.elts[0].id in origin:
                 src = v.elts[0].id
@@ -138,7 +143,21 @@ def r19_3(ctx, repo):
                 ne = nested_objects(repo, T, K)
                 if ip or ne:
                     need_deep[K] = sorted(ip | ne)
-            if 'deep' in kinds or 'method' in kinds:
+            if 'deepall' in kinds and 'deep' not in kinds and \
+                    'method' not in kinds:
+                if need_deep:
+                    K = sorted(need_deep)[0]
+                    ctx.violation(
+                        rule, where, construct, 'container copy',
+                        '`%s` is stored from one `copy.deepcopy` of the '
+                        'whole list `%s`: a deep copy preserves sharing '
+                        'inside the container, so a model passed twice '
+                        '(`[m] * 2`) stays one object for two entries and '
+                        'per-entry changes (%s of %s) overwrite each other' % (
+                            field, param, ', '.join(need_deep[K][:2]), K))
+                else:
+                    ctx.ok(rule, where, construct, 'deep copy of the list')
+            elif 'deep' in kinds or 'method' in kinds:
                 ctx.ok(rule, where, construct,
                        'stored from a deep copy of `%s` (%s)' % (
                            param, '/'.join(k for k in kinds if k)))
